@@ -171,8 +171,12 @@ class Reject(Exception):
 
 
 class Model:
-    def __init__(self, plan, pkg_faults):
+    def __init__(self, plan, pkg_faults, stale=()):
         self.plan = plan
+        # (type name, abstract type) pairs that an EARLIER load of the
+        # history registered on the application schema (known finding
+        # KF-2/KF-3); empty for the specification itself
+        self.stale = set(stale)
         self.faults = pkg_faults or {}
         self.types = {}
         for a in plan["abstract"]:
@@ -204,6 +208,7 @@ class Model:
         comp = self.plan["components"].get(pkg)
         if comp is None:
             raise Reject("%s has no component.xml" % pkg)
+        self.from_components = getattr(self, "from_components", set())
         if self.faults.get(pkg) == "pkg-get-data-eio":
             raise Reject("get_data of %s fails" % pkg)
         for p in comp.get("imports", ()):
@@ -219,13 +224,15 @@ class Model:
                     t["implements"], {}).get("abstract"):
                 raise Reject("bad implements")
             self.types[t["name"]] = dict(t, abstract=False)
+            self.from_components.add(t["name"])
             if comp.get("broken") and i == 0:
                 raise Reject("component breaks half-way")
 
     def admits(self, slot, tname):
         st = self.types[slot["type"]]
         if st["abstract"]:
-            return self.types[tname].get("implements") == slot["type"]
+            return (self.types[tname].get("implements") == slot["type"]
+                    or (tname, slot["type"]) in self.stale)
         return slot["type"] == tname
 
     def find_slot(self, ctype, tname, name):
@@ -404,10 +411,26 @@ def generate(rng, tier, index):
         if rng.random() < 0.5:
             plan["components"]["zcsim_p0"]["types"][-1]["extends"] = \
                 plan["components"]["zcsim_p1"]["types"][0]["name"]
+    if npk and rng.random() < 0.3:
+        # a twin of zcsim_p0: section types of the SAME NAMES that implement
+        # something else (or nothing).  Importing both into one load is a
+        # redefinition; importing them in different loads of one history
+        # must not let one load's implementers leak into the next
+        twin = {"imports": [], "types": [], "broken": False, "twin": True}
+        for t in plan["components"]["zcsim_p0"]["types"]:
+            others = [a for a in plan["abstract"] if a != t["implements"]]
+            twin["types"].append({
+                "name": t["name"], "extends": None,
+                "implements": rng.choice(others + [None])
+                if t["implements"] else rng.choice(plan["abstract"])})
+        plan["packages"]["zcsim_ptw"] = {"is_package": True}
+        plan["components"]["zcsim_ptw"] = twin
     plan["packages"]["zcsim_notpkg"] = {"is_package": False}
     plan["packages"]["zcsim_pempty"] = {"is_package": True}   # no component
     if npk and rng.random() < 0.15:
         plan["components"]["zcsim_p%d" % rng.randrange(npk)]["broken"] = True
+    if "zcsim_ptw" in plan["components"]:
+        comp_types = comp_types + plan["components"]["zcsim_ptw"]["types"]
     if npk and rng.random() < 0.15 and not any(
             c["broken"] for c in plan["components"].values()):
         plan["schema_imports"] = ["zcsim_p%d" % (npk - 1)]
@@ -425,11 +448,19 @@ def generate(rng, tier, index):
     # loads
     pkgs = sorted(plan["components"])
     for _ in range(rng.randint(1, 4)):
-        plan["loads"].append(_gen_load(rng, plan, pkgs, all_types))
+        use = pkgs
+        if "zcsim_ptw" in pkgs and rng.random() < 0.8:
+            # this load knows only one of the twins
+            drop = rng.choice(["zcsim_ptw", "zcsim_ptw", "zcsim_p0"])
+            use = [p for p in pkgs if p != drop]
+        plan["loads"].append(_gen_load(rng, plan, use, all_types))
     # one ConfigLoader object for the whole history (it keeps its extended
     # schema between loads by design, so only "model accepts => accepted,
     # same slots" is judged there)
-    plan["reuse_loader"] = rng.random() < 0.25
+    plan["reuse_loader"] = rng.random() < 0.25 \
+        and "zcsim_ptw" not in plan["components"]
+    # (with the twin package a loader that keeps an earlier load's import
+    # legitimately refuses the other twin as a redefinition)
     return plan
 
 
@@ -611,6 +642,7 @@ def execute(plan):
                 violation("schema-implementers", "initial",
                           "abstract type %s has implementers %r, the schema "
                           "text declares %r" % (a, sub0[a], want), 0)
+        stale = set()
         reuse = None
         if plan.get("reuse_loader"):
             import ZConfig.loader as _L
@@ -642,21 +674,43 @@ def execute(plan):
             out["evaluations"] += 1
             model = Model(plan, ld.get("pkg_faults"))
             pred = model.predict(ld["steps"])
+            # what the load would do if implementers registered by EARLIER
+            # loads of this history were still on the application schema's
+            # abstract types (they are: known findings KF-2 / KF-3)
+            pred_stale = None
+            if stale and reuse is None:
+                pred_stale = Model(plan, ld.get("pkg_faults"),
+                                   stale).predict(ld["steps"])
+                if pred_stale == pred or (not pred_stale["ok"]
+                                          and not pred["ok"]):
+                    pred_stale = None
+
+            def explained_by_stale():
+                if pred_stale is None:
+                    return False
+                if pred_stale["ok"] != o["ok"]:
+                    return False
+                return (not o["ok"] and bool(o.get("cfgerr"))) or (
+                    o["ok"] and pred_stale["tree"] == o["tree"])
+            STALE = "stale-implementer-name-from-earlier-import"
             out["log"].append("load %d: model %s ; real %s" % (
                 li, "accepts" if pred["ok"] else "rejects (%s)" % pred["why"],
                 ops.brief(o)))
             if pred["ok"] and not o["ok"]:
-                violation("rejected-but-model-accepts", "load",
+                violation("rejected-but-model-accepts",
+                          STALE if explained_by_stale() else "load",
                           "load raised %s; model accepts %s" % (
                               ops.brief(o), json.dumps(store)[:400]), li)
             elif not pred["ok"] and o["ok"] and reuse is not None:
                 probe("reused-loader-knows-more")
             elif not pred["ok"] and o["ok"]:
-                violation("accepted-but-model-rejects", "load",
+                violation("accepted-but-model-rejects",
+                          STALE if explained_by_stale() else "load",
                           "load accepted; model rejects because %s; %s" % (
                               pred["why"], json.dumps(store)[:400]), li)
             elif pred["ok"] and pred["tree"] != o["tree"]:
-                violation("wrong-slots", "load",
+                violation("wrong-slots",
+                          STALE if explained_by_stale() else "load",
                           "sections ended up as %s, model says %s" % (
                               json.dumps(o["tree"])[:300],
                               json.dumps(pred["tree"])[:300]), li)
@@ -664,6 +718,10 @@ def execute(plan):
                 violation("non-config-error", "load",
                           "model rejects (%s) and the load raised %s" % (
                               pred["why"], ops.brief(o)), li)
+            for n in getattr(model, "from_components", ()):
+                imp = model.types[n].get("implements")
+                if imp:
+                    stale.add((n, imp))
             # that load only
             sub = _subtypes(schema, plan)
             if sub != sub0:
